@@ -468,6 +468,295 @@ def rule_r4(chk, p, t):
         r.error("lambert:corrections", "no branch correction found in the Lambert solvers (2 confirmed by hand in lambertBattin)")
 
 
+# Vallado, Fundamentals of Astrodynamics and Applications (4th ed.), Algorithm 58 (Lambert - universal variables), in the
+# local names of the implementation.  How the iteration is entered (start values of delta_tn, y_new, the step counter)
+# is not part of the algorithm and is not transcribed.
+_LAMBERT_UNIVERSAL_REF = """
+def lambertUniversal(initial_position, current_position, delta_time, transfer_method, mu, tol, max_step):
+    if delta_time <= 0.0:
+        raise ValueError()
+    r_mag = norm(current_position)
+    r0_mag = norm(initial_position)
+    cos_delta_nu = dot(initial_position, current_position) / (r0_mag * r_mag)
+    a_value = transfer_method * sqrt(r_mag * r0_mag * (1.0 + cos_delta_nu))
+    if fpe_equals(a_value, 0.0):
+        raise ValueError()
+    psi_up = 4.0 * PI**2
+    psi_low = -4.0 * PI**2
+    psi_n = (psi_up + psi_low) * 0.5
+    c_2, c_3 = universalC2C3(psi_n)
+    while abs(delta_tn - delta_time) >= tol and step <= max_step:
+        y_new = _calcYNew(r0_mag, r_mag, a_value, psi_n, c_2, c_3)
+        if a_value > 0.0:
+            while y_new < 0.0:
+                if psi_up == 0.0:
+                    psi_up = 1.0
+                psi_low = psi_low + 0.001 * psi_up
+                psi_n = (psi_up + psi_low) * 0.5
+                c_2, c_3 = universalC2C3(psi_n)
+                new_y_new = _calcYNew(r0_mag, r_mag, a_value, psi_n, c_2, c_3)
+                if new_y_new < y_new:
+                    raise ValueError()
+                y_new = new_y_new
+        xi_new = sqrt(y_new / c_2)
+        delta_tn = (xi_new**3 * c_3 + a_value * sqrt(y_new)) / sqrt(mu)
+        if delta_tn <= delta_time:
+            psi_low = psi_n
+        else:
+            psi_up = psi_n
+        psi_n = (psi_up + psi_low) * 0.5
+        c_2, c_3 = universalC2C3(psi_n)
+        step += 1
+    gauss_f = 1.0 - y_new / r0_mag
+    gauss_g = a_value * sqrt(y_new / mu)
+    gauss_g_dot = 1.0 - y_new / r_mag
+    return _calculateVelocities(initial_position, current_position, gauss_f, gauss_g, gauss_g_dot)
+
+
+def _calcYNew(r0_mag, r_mag, a_value, psi_n, c_2, c_3):
+    return r0_mag + r_mag + a_value * (psi_n * c_3 - 1.0) / sqrt(c_2)
+
+
+def _calculateVelocities(initial_position, current_position, gauss_f, gauss_g, gauss_g_dot):
+    initial_velocity = (current_position - gauss_f * initial_position) / gauss_g
+    current_velocity = (gauss_g_dot * current_position - initial_position) / gauss_g
+    return initial_velocity, current_velocity
+"""
+
+
+def _ref_rule(r, p, ref_src, modq, init_ok=(), skip=(), branch_skip=()):
+    """Compare every function of the reference text with the function of the same name in module `modq`."""
+    from rsa import refdefs
+
+    tree = ast.parse(ref_src)
+    for ref in tree.body:
+        if not isinstance(ref, ast.FunctionDef):
+            continue
+        fn = p.func(f"{modq}.{ref.name}")
+
+        def one(fn=fn, ref=ref):
+            # keyword arguments of calls of sibling functions are bound positionally first (spelling only)
+            node = _bind_keywords(p, fn, modq)
+            names = None
+            res = refdefs.compare(node, ref, names=names, init_ok=init_ok, skip_under=branch_skip)
+            for nm, text, ln in res["mismatch"]:
+                if nm in skip:
+                    continue
+                r.violation(fn.qualname, f"formula:{fn.name}:{nm}:{text[:50]}", f"{fn.name} deviates from the cited algorithm: {text}", f"{fn.file}:{ln or fn.lineno}")
+            for nm, text, ln in res["unsure"]:
+                if nm in skip:
+                    continue
+                r.undecided(f"{fn.qualname}:{nm}", text, f"{fn.file}:{ln or fn.lineno}")
+            if not [m for m in res["mismatch"] if m[0] not in skip]:
+                r.ok(fn.qualname, f"{res['matched']} definitions of {len(res['names'])} quantities agree with the reference, guards included", fn.loc(), obligations=max(1, res["matched"]))
+
+        r.guard(fn.qualname, one)
+
+
+def _bind_keywords(p, fn, modq):
+    import copy
+
+    node = copy.deepcopy(fn.node)
+    mod = p.module(modq)
+
+    class B(ast.NodeTransformer):
+        def visit_Call(self, n):
+            self.generic_visit(n)
+            nm = call_name(n)
+            callee = mod.functions.get(nm) if isinstance(n.func, ast.Name) else None
+            if callee is not None and n.keywords and all(k.arg in callee.params for k in n.keywords):
+                ps = callee.params
+                slots = {ps[i]: a for i, a in enumerate(n.args) if i < len(ps)}
+                for k in n.keywords:
+                    slots[k.arg] = k.value
+                k = 0
+                args = []
+                while k < len(ps) and ps[k] in slots:
+                    args.append(slots[ps[k]])
+                    k += 1
+                if len(args) == len(slots):
+                    n.args, n.keywords = args, []
+            return n
+
+    return B().visit(node)
+
+
+def rule_r6(chk, p, t):
+    r = chk.rule(
+        "C20.R6",
+        "the universal-variable Lambert solver is the cited algorithm",
+        3,
+        "lambertUniversal cites Vallado Algorithm 58.  Definition by definition (rsa/refdefs.py: every right-hand side "
+        "as a rational function over opaque atoms, with the conditions that dominate it) it must be that algorithm: "
+        "cos(dnu) = r0.r / (r0 r); A = t_m sqrt(r r0 (1 + cos dnu)); y = r0 + r + A (psi c3 - 1) / sqrt(c2); chi = "
+        "sqrt(y / c2); dt = (chi^3 c3 + A sqrt(y)) / sqrt(mu); the bisection keeps psi_low when dt <= the requested time "
+        "(time of flight grows with psi) and psi_up otherwise, psi is the midpoint and c2, c3 are refreshed from it; "
+        "the negative-y correction applies for A > 0 only; f = 1 - y / r0, g = A sqrt(y / mu), gdot = 1 - y / r; v1 = "
+        "(r2 - f r1) / g, v2 = (gdot r2 - r1) / g",
+        "convergence and accuracy of the iteration (loops are not unrolled, nothing is evaluated); strictness of comparisons",
+    )
+    _ref_rule(r, p, _LAMBERT_UNIVERSAL_REF, LAM, init_ok=("delta_tn", "y_new", "step"))
+
+
+# Battin's method as cited (Battin 1987 eqs. 7.57, 7.89, 7.101, 7.102; Vallado Algorithm 59; the continued-fraction and
+# cubic helpers of the cited MATLAB implementation), in the local names of the implementation.  The hyperbolic branch is
+# not transcribed: the property quantifies over bound orbits (see DESIGN 5.4 for an observation on that branch).
+_LAMBERT_BATTIN_REF = """
+def lambertBattin(initial_position, current_position, delta_time, transfer_method, mu, tol, max_step):
+    if delta_time <= 0.0:
+        raise ValueError()
+    r2 = norm(current_position)
+    r1 = norm(initial_position)
+    cos_delta_nu = dot(initial_position, current_position) / (r1 * r2)
+    sin_delta_nu = transfer_method * norm(cross(current_position, initial_position)) / (r1 * r2)
+    delta_nu = wrapAngle2Pi(arctan2(sin_delta_nu, cos_delta_nu))
+    c = sqrt(r1**2 + r2**2 - 2.0 * r1 * r2 * cos_delta_nu)
+    s = (r1 + r2 + c) * 0.5
+    r2_over_r1 = r2 / r1
+    epsilon = r2_over_r1 - 1.0
+    tan_squared_two_omega = (epsilon**2 * 0.25) / (sqrt(r2_over_r1) + r2_over_r1 * (2.0 + sqrt(r2_over_r1)))
+    cos_delta_nu_over_2 = cos(delta_nu * 0.5)
+    r_op = 0.25 * (r1 + r2 + 2 * sqrt(r1 * r2) * cos_delta_nu_over_2)
+    if delta_nu < PI:
+        numerator = sin(delta_nu * 0.25) ** 2 + tan_squared_two_omega
+        l_val = numerator / (numerator + cos_delta_nu_over_2)
+    else:
+        denominator = cos(delta_nu * 0.25) ** 2 + tan_squared_two_omega
+        l_val = (denominator - cos_delta_nu_over_2) / denominator
+    m_val = (mu * delta_time**2) / (8 * r_op**3)
+    x = l_val
+    lim1 = sqrt(m_val / l_val)
+    while x_err > tol and step <= max_step:
+        xi_x = _battinGetXi(x)
+        h1 = ((l_val + x) ** 2 * (1.0 + 3.0 * x + xi_x)) / ((1.0 + 2.0 * x + l_val) * (4.0 * x + xi_x * (3.0 + x)))
+        h2 = (m_val * (x - l_val + xi_x)) / ((1.0 + 2.0 * x + l_val) * (4.0 * x + xi_x * (3.0 + x)))
+        xn, y = _cubicSplineBattin(y, h1, h2, m_val, l_val, lim1)
+        x_err = abs(x - xn)
+        x = xn
+        step += 1
+    sma = (mu * delta_time**2) / (16.0 * r_op**2 * x * y**2)
+    if sma > 0.0:
+        beta_e = 2.0 * arcsin(sqrt((s - c) / (2.0 * sma)))
+        if delta_nu > PI:
+            beta_e *= -1.0
+        a_min = s * 0.5
+        t_min = sqrt(a_min**3 / mu) * (PI - beta_e + sin(beta_e))
+        alpha_e = 2.0 * arcsin(sqrt(s / (2.0 * sma)))
+        if delta_time > t_min:
+            alpha_e = 2.0 * PI - alpha_e
+        delta_e = alpha_e - beta_e
+        gauss_f = 1.0 - (sma / r1) * (1.0 - cos(delta_e))
+        gauss_g = delta_time - sqrt(sma**3 / mu) * (delta_e - sin(delta_e))
+        gauss_g_dot = 1.0 - (sma / r2) * (1.0 - cos(delta_e))
+    return _calculateVelocities(initial_position, current_position, gauss_f, gauss_g, gauss_g_dot)
+
+
+def _battinGetXi(x, tol):
+    sqrt_1_plus_x = sqrt(1.0 + x)
+    eta = x / (1.0 + sqrt_1_plus_x) ** 2
+    cont_frac_sum = _battinContinuedFraction(_BATTIN_SUPPORT_COEFFICIENTS_ETA, eta, tol)
+    return 1.0 / ((1.0 / (8.0 * (1.0 + sqrt_1_plus_x))) * (3.0 + cont_frac_sum / (1.0 + eta * cont_frac_sum)))
+
+
+def _battinGetKappa(u, tol):
+    return _battinContinuedFraction(_BATTIN_SUPPORT_COEFFICIENTS_KAPPA, u, tol)
+
+
+def _battinContinuedFraction(coefficients, factor, tol):
+    del_old = 1.0
+    term_old = coefficients[0]
+    continued_frac = term_old
+    step = 0
+    while abs(term_old) > tol and step < len(coefficients) - 1:
+        del_new = 1.0 / (1.0 + coefficients[step + 1] * factor * del_old)
+        term = term_old * (del_new - 1.0)
+        continued_frac += term
+        step += 1
+        del_old = del_new
+        term_old = term
+    return continued_frac
+
+
+def _cubicSplineBattin(y, h1, h2, m, L, lim):
+    b = (27.0 * h2) / (4.0 * (1.0 + h1) ** 3)
+    x = -1.0
+    if b < -1.0:
+        x = 1.0 - 2.0 * L
+    elif y > lim:
+        x *= lim / y
+    else:
+        u = b / (2.0 * (sqrt(1.0 + b) + 1.0))
+        k = _battinGetKappa(u)
+        y = ((1.0 + h1) / 3.0) * (2.0 + sqrt(1.0 + b) / (1.0 + 2.0 * u * k**2))
+        x = sqrt(((1.0 - L) * 0.5) ** 2 + (m / y**2)) - (1.0 + L) * 0.5
+    return x, y
+"""
+
+_HYPERBOLIC = ("alpha_h", "beta_h", "delta_h")
+
+
+def rule_r7(chk, p, t):
+    r = chk.rule(
+        "C20.R7",
+        "Battin's Lambert solver is the cited algorithm",
+        6,
+        "lambertBattin and its helpers cite Battin (eqs. 7.57, 7.89, 7.101, 7.102), Vallado Algorithm 59 and the MATLAB "
+        "implementation.  Definition by definition (as for R6) they must be that algorithm: chord c, semiperimeter s, "
+        "tan^2(2w), r_op, l by the sign of pi - dnu, m, h1, h2, the cubic's B, U, K(U), y and x, the semi-major axis, the "
+        "elliptic alpha / beta with their long-way and beyond-minimum-energy corrections under the cited conditions, f, g, "
+        "gdot; xi(x) and the continued-fraction recurrence; and the two coefficient tables follow their closed forms: "
+        "c_eta[k] = (k + 2)^2 / ((2 (k + 2))^2 - 1) for k >= 1, c_kappa[2n + 1] = 2 (3n + 2)(6n + 1) / (9 (4n + 1)(4n + 3)), c_kappa[2n] = 2 (3n + 1)(6n - 1) "
+        "/ (9 (4n - 1)(4n + 1)) (constant folding of the literals, exact rationals)",
+        "convergence and accuracy of the iteration; the hyperbolic branch (outside the property's bound orbits); strictness of comparisons",
+    )
+    from fractions import Fraction
+
+    from rsa.terms import const_value
+
+    _ref_rule(r, p, _LAMBERT_BATTIN_REF, LAM, init_ok=("x_err", "step", "y", "x"), skip=_HYPERBOLIC, branch_skip=("sma < 0.0",))
+    mod = p.module(LAM)
+
+    def tables():
+        def lits(name):
+            v = mod.assigns.get(name)
+            require(v is not None, f"coefficient table {name} not found", mod.tree)
+            arr = v.args[0] if isinstance(v, ast.Call) and v.args else v
+            require(isinstance(arr, (ast.List, ast.Tuple)), f"{name} is not a literal table", v)
+            vals = [const_value(e) for e in arr.elts]
+            require(all(x is not None for x in vals), f"{name} has non-literal entries", v)
+            return vals, v
+
+        eta, n1 = lits("_BATTIN_SUPPORT_COEFFICIENTS_ETA")
+        kap, n2 = lits("_BATTIN_SUPPORT_COEFFICIENTS_KAPPA")
+        bad = []
+
+        def close(a, b):
+            return abs(a - b) <= Fraction(1, 10**12) * max(abs(a), abs(b))
+
+        if not close(eta[0], Fraction(1, 5)):
+            bad.append(f"c_eta[0] = {float(eta[0])} (0.2)")
+        for k in range(1, len(eta)):
+            n = k + 2
+            want = Fraction(n * n, (2 * n) ** 2 - 1)
+            if not close(eta[k], want):
+                bad.append(f"c_eta[{k}] = {float(eta[k]):.12g}, closed form {want}")
+        if not close(kap[0], Fraction(1, 3)):
+            bad.append(f"c_kappa[0] = {float(kap[0])} (1/3)")
+        for k in range(1, len(kap)):
+            n = k // 2
+            want = Fraction(2 * (3 * n + 2) * (6 * n + 1), 9 * (4 * n + 1) * (4 * n + 3)) if k % 2 else Fraction(2 * (3 * n + 1) * (6 * n - 1), 9 * (4 * n - 1) * (4 * n + 1))
+            if not close(kap[k], want):
+                bad.append(f"c_kappa[{k}] = {float(kap[k]):.12g}, closed form {want}")
+        if len(eta) < 10 or len(kap) < 10:
+            bad.append(f"tables truncated to {len(eta)} / {len(kap)} terms")
+        if bad:
+            r.violation(LAM + ":tables", "battin-coefficients:" + ";".join(b[:30] for b in bad[:3]), "Battin continued-fraction coefficients deviate from their closed forms: " + "; ".join(bad[:4]), f"{mod.relpath}:{n1.lineno}")
+        else:
+            r.ok(LAM + ":tables", f"{len(eta)} + {len(kap)} coefficients follow the closed forms", f"{mod.relpath}:{n1.lineno}", obligations=len(eta) + len(kap))
+
+    r.guard(LAM + ":tables", tables)
+
+
 def run(chk, p, t):
     chk.explanation = (
         "Static decision of a narrow set of structural necessary conditions of C20: (R1) the radar-observation "
@@ -485,7 +774,7 @@ def run(chk, p, t):
 
         C04.rule_r10(chk, p, t, rid="C20.R5", parts=("forward", "measurement"))
 
-    for fn in (rule_r1, rule_r2, rule_r3, rule_r4, rule_r5):
+    for fn in (rule_r1, rule_r2, rule_r3, rule_r4, rule_r5, rule_r6, rule_r7):
         rid = "C20.R" + fn.__name__[-1]
         if not chk.wants(rid):
             continue
